@@ -224,3 +224,15 @@ package guardiand
 //@   wiring publicrpcServiceRunnable: $arg2 $arg3 $arg4 $arg5 == db gst governanceChainId governanceEmitterAddress
 //@   wiring ethereum.NewEthWatcher: $arg5 $arg6 == lockC setC
 //@   wiring alephium.NewAlephiumWatcher: $arg4 == lockC
+
+// the two service constructors hand their arguments on by name (start-up code, syntactic)
+//@ func publicrpcServiceRunnable(logger *zap.Logger, listenAddr string, d *db.Database, gst *common.GuardianSetState, governanceChainId vaa.ChainID, governanceEmitter vaa.Address) (r supervisor.Runnable, g *grpc.Server, err error)
+//@   props C12
+//@   assume-contract
+//@   wiring publicrpc.NewPublicrpcServer: $arg1 $arg2 $arg3 $arg4 == db gst governanceChainId governanceEmitter
+//@   wiring publicrpcv1.RegisterPublicRPCServiceServer: $arg0 $arg1 == grpcServer rpcServer
+//@ func adminServiceRunnable(logger *zap.Logger, socketPath string, injectC chan<- *vaa.VAA, signedInC chan *gossipv1.SignedVAAWithQuorum, obsvReqSendC chan *gossipv1.ObservationRequest, d *db.Database, gst *common.GuardianSetState, governanceChainId vaa.ChainID, governanceEmitterAddress vaa.Address) (r supervisor.Runnable, err error)
+//@   props C12 C15 C17
+//@   modifies *
+//@   wiring nodev1.RegisterNodePrivilegedServiceServer: $arg0 $arg1 == grpcServer nodeService
+//@   at [call publicrpc.NewPublicrpcServer]: assert [service-holds-what-it-was-given] nodeService != nil && nodeService.injectC == injectC && nodeService.obsvReqSendC == obsvReqSendC && nodeService.signedInC == signedInC && nodeService.db == d && nodeService.governanceChainId == governanceChainId && nodeService.governanceEmitterAddress == governanceEmitterAddress
